@@ -116,6 +116,18 @@ Theorem C13_twin_open_new : forall fc fn wc wn t v s m l lim fundsn wc' wn' vm,
 Proof. exact twin_open_new. Qed.
 Print Assumptions C13_twin_open_new.
 
+(* OpenPosition on ANY path (new, increase, reduce, reversal): both deployments pay the fee pool the same amount *)
+Theorem C13_twin_open_pool : forall fc fn wc wn t v s m l lim fundsn wc' wn' vm,
+  twin wc wn ->
+  exec_op fc wc (OEngine t (EOpenPosition v s m l lim) 0) = Ok wc' ->
+  exec_op fn wn (OEngine t (EOpenPosition v s m l lim) fundsn) = Ok wn' ->
+  get_vamm wc v = Ok vm -> 0 <= m -> 0 <= l -> 0 < e_dec (ec (w_eng wc)) ->
+  let pool := e_feepool (ec (w_eng wc)) in
+  pool <> A_ENGINE -> pool <> A_IFUND -> pool <> if_engine (w_if wc) -> e_ifund (ec (w_eng wc)) <> pool -> t <> pool ->
+  bal (w_tok wc') pool = bal (w_tok wn') pool.
+Proof. exact twin_open_pool. Qed.
+Print Assumptions C13_twin_open_pool.
+
 (* non-vacuity: the cw20 and the native scenario are twins as far as the relation can be computed (engine, vAMMs,
    fund, environment, the balances of every account of the scenario), and both carry out a whole close - the native
    one with exactly the fees attached - ending with equal wallets *)
